@@ -249,6 +249,7 @@ impl ModuleRef {
             self.processing.borrow_mut().incoming_upstream(None);
             Harness::new(&self.ctx).exec(|| {}).catch()?;
             self.processing.borrow_mut().incoming_downstream();
+            self.poll_after_end_hooks()?;
         } else {
             #[cfg(feature = "tracing")]
             tracing::debug!("Ignoring message since module is inactive");
@@ -292,6 +293,8 @@ impl ModuleRef {
 
             // Downstream
             processing.incoming_downstream();
+            drop(processing);
+            self.poll_after_end_hooks()?;
         } else {
             #[cfg(feature = "tracing")]
             tracing::debug!("Ignoring message since module is inactive");
@@ -312,6 +315,24 @@ impl ModuleRef {
             .exec(|| processing.handler.at_sim_start(stage))
             .catch()?;
         processing.incoming_downstream();
+        drop(processing);
+        self.poll_after_end_hooks()
+    }
+
+    /// The `event_end` hooks of processing elements run after the executor turn of the
+    /// event. Tasks they make runnable get a turn of their own, so that they do not
+    /// stay behind until the module's next activation.
+    #[cfg(feature = "async")]
+    fn poll_after_end_hooks(&self) -> Result<(), PanicError> {
+        if self.ctx.active.load(SeqCst) && self.processing.borrow().has_elements() {
+            Harness::new(&self.ctx).exec(|| {}).catch()?;
+        }
+        Ok(())
+    }
+
+    #[cfg(not(feature = "async"))]
+    #[allow(clippy::unnecessary_wraps)]
+    fn poll_after_end_hooks(&self) -> Result<(), PanicError> {
         Ok(())
     }
 
